@@ -215,3 +215,60 @@ def option_names(binary):
                 if w and w[0] != "help" and re.fullmatch(r"[a-z][a-z0-9-]*", w[0]):
                     todo.append(path + [w[0]])
     return sorted(names - {"help", "version"})
+
+
+def run_cli_tty(binary, args, stdin=None, env=None, timeout=60):
+    """the command with its standard output connected to a pseudo-terminal instead of a pipe; returns CliOut with the
+    terminal's CR LF translated back to LF"""
+    import pty
+    import select
+    import time
+    e = env_with()
+    for k in CLEAN_ENV_KEYS:
+        e.pop(k, None)
+    if env:
+        e.update(env)
+    master, slave = pty.openpty()
+    try:
+        p = subprocess.Popen([binary] + list(args), stdin=(subprocess.PIPE if stdin is not None else subprocess.DEVNULL), stdout=slave,
+                             stderr=subprocess.PIPE, env=e)
+    finally:
+        os.close(slave)
+    out = bytearray()
+    try:
+        if stdin is not None:
+            try:
+                p.stdin.write(stdin)
+                p.stdin.close()
+            except BrokenPipeError:
+                pass
+        deadline = time.time() + timeout
+        while True:
+            if time.time() > deadline:
+                p.kill()
+                return CliOut("timeout", None, bytes(out), b"")
+            r, _, _ = select.select([master], [], [], 0.2)
+            if r:
+                try:
+                    chunk = os.read(master, 65536)
+                except OSError:
+                    break
+                if not chunk:
+                    break
+                out += chunk
+            elif p.poll() is not None:
+                try:
+                    while select.select([master], [], [], 0.05)[0]:
+                        chunk = os.read(master, 65536)
+                        if not chunk:
+                            break
+                        out += chunk
+                except OSError:
+                    pass
+                break
+        err = p.stderr.read()
+        rc = p.wait(timeout=10)
+    finally:
+        os.close(master)
+    cls = "ok" if rc == 0 else "panic" if rc == 101 else "signal" if rc < 0 else "error"
+    return CliOut(cls, rc, bytes(out).replace(b"\r\n", b"\n"), err)
